@@ -147,6 +147,21 @@ def reader_correspondence(ck, fut):
         if not c.get("lxml_tree_same_outcome", True):
             ck.failure("handlers-differ-lxml_tree_plain", f"lxml handler: parsed tree and bytes give different outcomes on {c['xml'][:300]!r}", rp(i))
     stats["cases"] = len(terms)
+    # families of the generator: one that produced no judged case is a broken check, not a pass
+    fam = {}
+    for j, c in meta:
+        k = j["model"].get("c08") or j["model"].get("extra") or "generated"
+        fam[k] = fam.get(k, 0) + 1
+    for x in [x for j in res["jobs"] for x in j.get("plumbing", [])]:
+        fam["plumbing:" + x["kind"]] = fam.get("plumbing:" + x["kind"], 0) + 1
+    fam["chunk"] = len(stats.get("chunk_boundary", []))
+    fam["encodings"] = stats.get("encoding_cases", 0)
+    fam["tree"] = stats.get("tree_cases", 0)
+    stats["families"] = fam
+    for k in C08_EXTRAS + ["generated", "plumbing:entities", "plumbing:xinclude-mode", "plumbing:comments", "plumbing:xinclude",
+                           "chunk", "encodings", "tree"]:
+        if not fam.get(k):
+            ck.broken_obligation(f"reader correspondence: family {k} produced no judged case", str(fam))
     stats["guard_true"] = len(terms) - len(outside)
     stats["handlers_differ"] = len(bad["oracle_handlers_agree"])
     stats["et_differs"] = len(bad["oracle_et_agrees"])
@@ -366,6 +381,10 @@ def run(ck: Check):
                         g = "lxml_tree_plain"
                     ck.failure("handlers-differ-" + g, f"handlers/sources disagree: {ds}",
                                {"model_src": job["src"], "instance": job["instances"][case["i"]], "case": case, "result": res})
+    for op, fams in (("writers", ("gm_", "qattr_", "hostile_")), ("handlers", ("gm_",)), ("roundtrip", ("qattr_", "hostile_"))):
+        for f in fams:
+            if not any(c["op"] == op for job, o in zip(jobs, out) if job["name"].startswith(f) and "results" in o for c in job["cases"]):
+                ck.broken_obligation(f"oracle: family {f}* produced no judged {op} case", "")
     try:
         rstats, rsamples = reader_correspondence(ck, fut)
     except common.BuildError as e:
